@@ -40,6 +40,7 @@ class Pool(object):
         self.owner = {}     # hid -> task
         self.info = {}      # id(obj) -> ObjInfo
         self.copyrel = set()  # ids of objects that are a copy or the source of a copy
+        self._rot = 0
         for hid, (mod, attr) in CONST_HANDLES.items():
             o = getattr(ops.MODS[mod], attr, None)
             if o is None or kind_of(o) is None:
@@ -110,17 +111,62 @@ class Pool(object):
         for k in [k for k, inf in self.info.items() if k not in live and not inf.const]:
             del self.info[k]
 
+    def age(self, now_op, hstride, keep_ops=80, max_handles=400):
+        """Bound the pool: once it holds more than max_handles handles, the callers drop their references to
+        objects they received more than keep_ops operations ago (objects in use by an in-flight call stay)."""
+        if len(self.handles) <= max_handles:
+            return 0
+        n = 0
+        for h in sorted(self.handles):
+            if h < hstride or h // hstride >= now_op - keep_ops:
+                continue
+            inf = self.info.get(id(self.handles[h]))
+            if inf is not None and (inf.const or inf.rlocks or inf.xlock):
+                continue
+            del self.handles[h]
+            self.owner.pop(h, None)
+            n += 1
+        return n
+
     def check_all(self):
-        """O1 over the whole pool: every object still shows the snapshot of its
-        last legitimate write.  Returns list of (ObjInfo, now_snapshot)."""
+        """O1 over the whole pool: every object still shows the snapshot of its last legitimate write.
+        Returns list of (ObjInfo, now_snapshot).  A large pool (> 500 objects) is checked in rotating
+        slices of 300 plus the 100 youngest objects per call, so that the cost of one check is bounded."""
         bad = []
-        for inf in self.info.values():
+        infos = list(self.info.values())
+        if len(infos) > 500:
+            k = self._rot % len(infos)
+            sel = infos[k:k + 300]
+            if len(sel) < 300:
+                sel += infos[:300 - len(sel)]
+            self._rot += 300
+            seen = set(id(x) for x in sel)
+            sel += [x for x in infos[-100:] if id(x) not in seen]
+            infos = sel
+        for inf in infos:
             if inf.xlock:
                 continue
             s = snap(inf.obj)
             if is_busy(inf.snap):
                 # the model snapshot was taken while a repr of the same lists was running on this
                 # thread (e.g. a copy made inside a pre-empted __repr__): adopt the first clean one
+                if not is_busy(s):
+                    inf.snap = s
+                continue
+            if s != inf.snap and not is_busy(s):
+                bad.append((inf, s))
+        return bad
+
+    def check_everything(self):
+        self._rot = 0
+        saved = None
+        bad = []
+        infos = list(self.info.values())
+        for inf in infos:
+            if inf.xlock:
+                continue
+            s = snap(inf.obj)
+            if is_busy(inf.snap):
                 if not is_busy(s):
                     inf.snap = s
                 continue
